@@ -166,6 +166,7 @@ def check(F, rep):
            "unregister drops its by-value guard on every path (never moves it on)", skey(F, u, "guard-dropped"))
 
     # ---- ConnectionId
+    private_fields(F, rep, CID, "connection ids cannot be forged by a literal")
     cs = [x for x in ctor_sites(F, CID) if not x[0].derived]
     rep.floor("ctor_sites", "ConnectionId construction sites", len(cs), 1)
     for f, b, i, rv in cs:
